@@ -43,8 +43,8 @@ J gen(uint64_t seed, bool thorough) {
   J e = J::obj(); ec.to_json(e); sc["engine"] = e;
   sc["config"] = global_config(1, 0, false);
   sc["T"] = (long long)T;
-  static const char *kinds[] = {"distance", "distanceZ", "dihedral", "angle", "distanceXY", "gyration", "rmsd", "eigenvector"};
-  std::string kind = kinds[r.below(8)];
+  static const char *kinds[] = {"distance", "distanceZ", "dihedral", "angle", "distanceXY", "gyration", "rmsd", "eigenvector", "combo"};
+  std::string kind = kinds[r.below(9)];
   bool fitted = kind == "gyration" || kind == "rmsd" || kind == "eigenvector";
   if (fitted && kind != "gyration" && ec.traj_amp > 0.5) {   // keep the optimal rotation well defined
     ec.traj_amp = 0.5; m.build(ec.data_seed, ec.natoms, ec.traj_amp, ec.force_amp, false);
@@ -70,17 +70,24 @@ J gen(uint64_t seed, bool thorough) {
       cv.normalize = r.chance(0.5);
     }
   }
+  if (kind == "combo") {
+    // a linear combination of two distances; components may be switched off and on between segments (cvcflags)
+    cv.groups = pick_groups(r, ec.natoms, 4, 2);
+    static const double cs[] = {1, -1, 0.5, 2, -1.5};
+    cv.coeff0 = cs[r.below(5)]; cv.coeff1 = cs[r.below(5)];
+  }
   place_grid(cv, m, T, r, (int)r.range(5, 10), 1.3);
   double lo, hi; cv_range(cv, m, T, lo, hi);
   bool sub = r.chance(0.5);
   cv.extra += "  outputTotalForce on\n";
   if (sub) cv.extra += "  subtractAppliedForce on\n";
   sc["cv"] = cv.config(); sc["kind"] = cv.kind; sc["sub"] = sub;
-  bool hide = r.chance(0.15) && !cv.periodic();   // (a periodic 1-D ABF applies minus its mean gradient from the first sample on)
+  bool hide = r.chance(0.15) && !cv.periodic() && kind != "combo";   // (a periodic 1-D ABF applies minus its mean gradient from the first sample on)
   sc["hide"] = hide;
   sc["keepawake"] = hide ? "abf {\n  name keep\n  colvars x\n  fullSamples 1000000\n  hideJacobian on\n}\n" : "histogram {\n  name keep\n  colvars x\n}\n";
   { J g = J::arr(); for (int a : cv.groups[0]) g.push((long long)a); sc["group"] = g;
     J rf = J::arr(); for (auto const &v : cv.ref) { rf.push(v.x); rf.push(v.y); rf.push(v.z); } sc["ref"] = rf;
+    if (kind == "combo") { J gg = J::arr(); for (auto const &grp : cv.groups) { J a = J::arr(); for (int x : grp) a.push((long long)x); gg.push(a); } sc["combo_groups"] = gg; sc["coeff0"] = cv.coeff0; sc["coeff1"] = cv.coeff1; }
     J vc = J::arr(); for (auto const &v : cv.vec) { vc.push(v.x); vc.push(v.y); vc.push(v.z); } sc["vec"] = vc; sc["normalize"] = cv.normalize; sc["difference"] = cv.difference; }
   J used = J::arr(); { std::set<int> u; for (auto const &g : cv.groups) for (int a : g) u.insert(a); for (int a : u) used.push((long long)a); }
   sc["atoms"] = used;
@@ -105,6 +112,7 @@ J gen(uint64_t seed, bool thorough) {
       double u = r.unit();
       if (u < 0.45 && !live.empty()) { size_t q = r.below(live.size()); J o2 = J::obj(); o2["w"] = 0; o2["op"] = "delbias"; o2["name"] = live[q]; ops.push(o2); live.erase(live.begin() + (long)q); sig += "d"; }
       else if (u < 0.7 && live.size() < 3) add();
+      if (kind == "combo" && r.chance(0.6)) { static const char *fl[] = {"1 0", "0 1", "1 1"}; J o3 = J::obj(); o3["w"] = 0; o3["op"] = "cvcflags"; o3["flags"] = fl[r.below(3)]; ops.push(o3); sig += "f"; }
     }
   }
   sc["template"] = sig;
@@ -113,7 +121,7 @@ J gen(uint64_t seed, bool thorough) {
   return plan;
 }
 
-struct Trace { std::vector<StepRec> recs; std::string err; };
+struct Trace { std::vector<StepRec> recs; std::vector<int> active_mask; std::string err; };
 
 // mode: 0 = no system forces, 1 = S, 2 = 2S, 3 = S + foreign
 Trace execute(J const &plan, int mode, RunResult &res, bool nohide = false) {
@@ -133,9 +141,16 @@ Trace execute(J const &plan, int mode, RunResult &res, bool nohide = false) {
   };
   std::string conf = config + sc.at("cv").as_str() + (nohide ? std::string("histogram {\n  name keep\n  colvars x\n}\n") : sc.at("keepawake").as_str());
   if (e->configure(conf) != COLVARS_OK || cvm::get_error()) { out.err = "configuration refused: " + e->last_error(); return out; }
+  Engine *ep0 = e.get();
+  e->after_step = [&out, ep0](long) {
+    int mask = 0; colvar *cv = cvm::colvar_by_name("x");
+    if (cv) { auto &cc = colvars_verif_access::cvcs(cv); for (size_t q = 0; q < cc.size() && q < 30; q++) if (cc[q]->is_enabled()) mask |= 1 << q; }
+    out.active_mask.push_back(mask); (void)ep0;
+  };
   for (auto const &op : plan.at("ops").a) {
     std::string k = op.at("op").as_str();
     cvm::clear_error();
+    if (k == "cvcflags") { e->run_script({"cv", "colvar", "x", "cvcflags", op.at("flags").as_str()}); if (mode == 0) res.counters["fault.components_switched"]++; cvm::clear_error(); continue; }
     if (k == "run") e->run((int)op.at("n").as_int(1), false);
     else if (k == "addbias") { if (e->run_script({"cv", "config", op.at("config").as_str()}) != COLVARS_OK) cvm::clear_error(); }
     else if (k == "delbias") { if (cvm::bias_by_name(op.at("name").as_str())) { e->run_script({"cv", "bias", op.at("name").as_str(), "delete"}); if (mode == 0) res.counters["fault.bias_deleted_mid_run"]++; } }
@@ -149,6 +164,7 @@ bool close_enough(double a, double b, double rtol, double atol) { return std::fa
 
 struct JacCtx {
   std::string kind; std::vector<int> group; std::vector<V3> ref, evec; TrajModel m; bool hide = false;
+  std::vector<std::vector<int>> cgroups; double c0 = 1, c1 = 1; int mask = 3;   // combo
   long fd_unstable = 0, value_mismatch = 0, numeric = 0;
   double last_mag = 0;   // sum of the absolute finite-difference terms of the last numeric divergence (sets its accuracy)
   std::vector<V3> positions(long step) const { std::vector<V3> p; for (int a : group) p.push_back(m.pos(a, step)); return p; }
@@ -198,6 +214,15 @@ struct JacCtx {
     if (kind == "distanceXY") return x != 0 ? 1.0 / x : 0.0;
     if (kind == "angle") { double th = x * M_PI / 180.0; return M_PI / 180.0 * (th != 0 ? std::cos(th) / std::sin(th) : 0.0); }
     if (kind == "distanceZ" || kind == "dihedral") return 0.0;
+    if (kind == "combo") {
+      // x = sum c_i d_i over the active components: total force and Jacobian term are normalised by the sum of the squared coefficients
+      double num = 0, den = 0;
+      for (int c = 0; c < 2; c++) if (mask & (1 << c)) {
+        double cc = c ? c1 : c0, d = (m.com(cgroups[(size_t)(2 * c + 1)], step) - m.com(cgroups[(size_t)(2 * c)], step)).norm();
+        num += cc * (d != 0 ? 2.0 / d : 0.0); den += cc * cc;
+      }
+      return den > 0 ? num / den : 0.0;
+    }
     std::vector<V3> p = positions(step);
     double mine = value(p);
     if (std::fabs(mine - x) > 1e-9 * (1 + std::fabs(x))) { value_mismatch++; ok = false; return 0; }
@@ -218,6 +243,11 @@ RunResult run(J const &plan) {
   double kT = 0.001987191 * ec.temperature;
   JacCtx jc; jc.kind = kind; jc.hide = sc.has("hide") && sc.at("hide").as_bool();
   bool numeric_kind = kind == "gyration" || kind == "rmsd" || kind == "eigenvector";
+  if (kind == "combo") {
+    jc.m.build(ec.data_seed, ec.natoms, ec.traj_amp, ec.force_amp, false);
+    for (auto const &g : sc.at("combo_groups").a) { std::vector<int> ids; for (auto const &a : g.a) ids.push_back((int)a.as_int()); jc.cgroups.push_back(ids); }
+    jc.c0 = sc.at("coeff0").as_num(1); jc.c1 = sc.at("coeff1").as_num(1);
+  }
   if (numeric_kind) {
     jc.m.build(ec.data_seed, ec.natoms, ec.traj_amp, ec.force_amp, false);
     for (auto const &a : sc.at("group").a) jc.group.push_back((int)a.as_int());
@@ -259,6 +289,9 @@ RunResult run(J const &plan) {
         bool first_of_run_zero = false;
         (void)first_of_run_zero;
         double fprev = hide ? twin.recs[s - 1].cv_fa[0] : P.cv_fa[0]; if (fprev != 0.0) nonzero_applied++;
+        jc.mask = s - 1 < tr[0].active_mask.size() ? tr[0].active_mask[s - 1] : 3;
+        // (the step at which the set of active components changes measures the previous forces along a different variable: not judged)
+        if (kind == "combo" && s < tr[0].active_mask.size() && tr[0].active_mask[s] != tr[0].active_mask[s - 1]) { res.counters["probe.steps_with_changed_component_set_skipped"]++; continue; }
         bool ok = true; double jt = kT != 0 && !hide ? kT * jc.jac(P.step, P.cv[0], ok) : 0.0;
         if (!ok) continue;
         double expect = (sub ? 0.0 : fprev) + jt;
@@ -272,11 +305,12 @@ RunResult run(J const &plan) {
       }
     } else {
       // same-step forces: nothing Colvars applies at this step is in them
+      jc.mask = s < tr[0].active_mask.size() ? tr[0].active_mask[s] : 3;
       bool ok = true; double expect = kT != 0 && !hide ? kT * jc.jac(A.step, A.cv[0], ok) : 0.0;
       if (!ok) continue;
       if (s > 0 && !close_enough(ftA, expect, 1e-9, 1e-11 + jtol * std::max(std::fabs(expect), kT * jc.last_mag))) {
         // (the Jacobian term of the previous evaluation is tolerated: see DESIGN, C07)
-        bool ok2 = true; double alt = kT != 0 && !hide ? kT * jc.jac(tr[0].recs[s - 1].step, tr[0].recs[s - 1].cv[0], ok2) : 0.0;
+        jc.mask = tr[0].active_mask.size() >= s && s > 0 ? tr[0].active_mask[s - 1] : 3; bool ok2 = true; double alt = kT != 0 && !hide ? kT * jc.jac(tr[0].recs[s - 1].step, tr[0].recs[s - 1].cv[0], ok2) : 0.0;
         if (!ok2) continue;
         if (!close_enough(ftA, alt, 1e-9, 1e-11 + jtol * std::max(std::fabs(alt), kT * jc.last_mag))) { res.fail("inverse", hide ? "same_step_total_force_keeps_hidden_jacobian" : "same_step_total_force_not_jacobian_only", at + ": reported total force " + fmt_double(ftA) + " with no system forces; Jacobian term " + fmt_double(expect)); break; }
         res.counters["probe.same_step_jacobian_of_previous_step"]++;
